@@ -15,7 +15,7 @@ from ..core.model import AnchorMissing, Repo, class_methods, dotted
 from ..core.report import Run
 from ..core import dumpstack
 
-LEVEL = "proof"
+LEVEL = "other"  # a recorded known finding keeps one obligation open; the rule set itself is complete for its clauses
 
 # CEL language definition, lowest precedence first.  (kind, operator texts)
 REFERENCE_LEVELS: List[Tuple[str, str, Set[str]]] = [
